@@ -38,5 +38,9 @@ func (f *Values) Call(s *slip.Scope, args slip.List, depth int) (result slip.Obj
 	if len(args) == 1 {
 		return args[0] // a single value is just that value
 	}
-	return slip.Values(args)
+	// The arguments belong to the caller, a mapping function uses the same
+	// list for every call.
+	vals := make(slip.Values, len(args))
+	copy(vals, args)
+	return vals
 }
